@@ -55,6 +55,7 @@ inductive Instr where
   | buildMacro (name : String) (offset : Nat) (flags : Nat) | ret
   | include_ (ignoreMissing : Bool)
   | callBlock (name : String)
+  | loadBlocks | fastSuper
   | unsupported (name : String)
 
 structure LoopSt where
@@ -75,7 +76,7 @@ structure Frame where
   /-- closure a macro body reads from (`Frame::closure_context`) -/
   closureCtx : Option Nat := Option.none
 
-inductive RetKind | macroCall | includeCall | blockCall
+inductive RetKind | macroCall | includeCall | blockCall | superCall
   deriving DecidableEq, Repr
 
 /-- what a nested evaluation returns to -/
@@ -89,6 +90,10 @@ structure Ret where
   closure : Option Nat := Option.none
   /-- height of the frame stack to restore (`restore_stack_depth`) -/
   depth : Nat := 0
+  /-- `State::current_block` to restore -/
+  block : Option String := Option.none
+  /-- `super()` as an expression: the output of the parent block is captured and pushed -/
+  capture : Bool := false
 
 structure St where
   /-- which instruction list is running -/
@@ -109,14 +114,24 @@ structure St where
   formatter : Nat := 0
   /-- number of times the custom formatter was invoked -/
   fmtCalls : Nat := 0
+  /-- `State::blocks`: per block name the instruction lists (the template's own first, then those of
+      the templates it extends) and the depth `super()` has reached; `none` = not initialised yet
+      (the blocks of the template itself, `Prog.blocks`) -/
+  blockStacks : Option (List (String × List Nat × Nat)) := Option.none
+  /-- `State::current_block` -/
+  curBlock : Option String := Option.none
+  /-- the instructions of the parent template stashed by `LoadBlocks` (`parent_instructions`) -/
+  parent : Option Nat := Option.none
 
 /-- the instruction lists of a render: `codes[0]` is the template, the others are templates it
     can include by name -/
 structure Prog where
   codes : Array (Array Instr)
   templates : List (String × Nat) := []
-  /-- the blocks of the template itself (no inheritance): name → instruction list -/
+  /-- the blocks of the template itself: name → instruction list -/
   blocks : List (String × Nat) := []
+  /-- the blocks of the templates it can extend: template name → (block name → instruction list) -/
+  parentBlocks : List (String × List (String × Nat)) := []
 
 def globalFunctions : List String := ["range", "dict", "debug", "namespace"]
 
@@ -324,6 +339,25 @@ def loopMethod (s : St) (rest : List V) (h : Nat) (name : String) (args : List V
       else .ok { (s.setLoopAt h { l with lastChanged := some args }) with stack := .bool true :: rest }.next
     else .error (.other "UnknownMethod")
 
+/-- `perform_super`: the next instruction list of the current block's stack, in a fresh frame -/
+def enterSuper (P : Prog) (s : St) (capture : Bool) (rest : List V) : Except Err St :=
+  match s.curBlock with
+  | Option.none => .error .invalidOperation
+  | some name =>
+    let stacks := s.blockStacks.getD (P.blocks.map (fun p => (p.1, [p.2], 0)))
+    match stacks.find? (fun p => p.1 == name) with
+    | some (_, codes, depth) =>
+      match codes[depth + 1]? with
+      | some code =>
+        .ok { s with
+          calls := { kind := .superCall, code := s.code, pc := s.pc + 1, stack := rest, depth := s.frames.length,
+                     block := s.curBlock, capture := capture } :: s.calls
+          code := code, pc := 0, stack := [], frames := {} :: s.frames
+          outs := if capture then [] :: s.outs else s.outs
+          blockStacks := some (stacks.map (fun p => if p.1 == name then (p.1, p.2.1, depth + 1) else p)) }
+      | Option.none => .error .invalidOperation
+    | Option.none => .error .invalidOperation
+
 /-- the mode-independent rest of every instruction -/
 def exec (ops : Ops) (P : Prog) (i : Instr) (s : St) : Except Err St :=
   match i, s.stack with
@@ -490,6 +524,7 @@ def exec (ops : Ops) (P : Prog) (i : Instr) (s : St) : Except Err St :=
       match callArgs st argc with
       | Option.none => .error .stack
       | some (args, r) =>
+        if name == "super" then (if args.isEmpty then enterSuper P s true r else .error .invalidOperation) else
         match s.lookup? name with
         | some f => callValue ops s r f args
         | Option.none => .error (.other "UnknownFunction")     -- globals are handled in `stepC`
@@ -531,14 +566,39 @@ def exec (ops : Ops) (P : Prog) (i : Instr) (s : St) : Except Err St :=
       | .seq _ | .iter _ => .error (.unsupported "include of a list of names")
       | _ => .error .invalidOperation
   | .callBlock name, st =>
-      -- `call_block` without inheritance: the block's instructions in a fresh frame of the current context
+      -- `call_block`: the instructions at the current depth of the block's stack, in a fresh frame;
+      -- skipped while the template is only collecting blocks for its parent
       if s.calls.any (fun r => r.kind = .includeCall) then .error (.unsupported "block of an included template") else
-      match P.blocks.find? (fun p => p.1 == name) with
-      | some (_, code) =>
-        .ok { s with
-          calls := { kind := .blockCall, code := s.code, pc := s.pc + 1, stack := st, depth := s.frames.length } :: s.calls
-          code := code, pc := 0, stack := [], frames := {} :: s.frames }
+      if s.parent.isSome then .ok s.next else
+      let stacks := s.blockStacks.getD (P.blocks.map (fun p => (p.1, [p.2], 0)))
+      match stacks.find? (fun p => p.1 == name) with
+      | some (_, codes, depth) =>
+        match codes[depth]? with
+        | some code =>
+          .ok { s with
+            calls := { kind := .blockCall, code := s.code, pc := s.pc + 1, stack := st, depth := s.frames.length,
+                       block := s.curBlock } :: s.calls
+            code := code, pc := 0, stack := [], frames := {} :: s.frames, curBlock := some name, blockStacks := some stacks }
+        | Option.none => .error .stack
       | Option.none => .error (.other "UnknownBlock")
+  | .loadBlocks, name :: r =>
+      -- `{% extends %}`: the parent's blocks go below the ones already known, the parent's own
+      -- instructions run when this template's are finished, the output until then is discarded
+      if s.calls.any (fun c => c.kind = .includeCall) then .error (.unsupported "extends in an included template") else
+      match name with
+      | .str n =>
+        if s.parent.isSome then .error .invalidOperation else
+        match P.templates.find? (fun p => p.1 == n), P.parentBlocks.find? (fun p => p.1 == n) with
+        | some (_, code), pb =>
+          let stacks := s.blockStacks.getD (P.blocks.map (fun p => (p.1, [p.2], 0)))
+          let add := (pb.map (fun p => p.2)).getD []
+          let stacks' := add.foldl (fun acc (b : String × Nat) =>
+            if acc.any (fun p => p.1 == b.1) then acc.map (fun p => if p.1 == b.1 then (p.1, p.2.1 ++ [b.2], p.2.2) else p)
+            else acc ++ [(b.1, [b.2], 0)]) stacks
+          .ok { s with stack := r, blockStacks := some stacks', parent := some code, outs := [] :: s.outs }.next
+        | Option.none, _ => .error (.other "TemplateNotFound")
+      | _ => .error .invalidOperation
+  | .fastSuper, _ => enterSuper P s false s.stack
   | .unsupported n, _ => .error (.unsupported ("instruction " ++ n))
   | _, _ => .error .stack
 
@@ -606,11 +666,11 @@ def stepC (ops : Ops) (P : Prog) (i : Instr) (s : St) : Comp St :=
 
 /-- an error inside an included template is reported as `BadInclude` (`perform_include`) -/
 def wrapErr (s : St) (e : Err) : Err :=
-  if s.calls.any (fun r => r.kind = .includeCall) then
+  if s.calls.any (fun r => r.kind = .includeCall || r.kind = .superCall) then
     match e with
     | .unsupported w => .unsupported w
     | .outOfFuel => .outOfFuel
-    | _ => .other "BadInclude"
+    | _ => .other "BadInclude or EvalBlock"
   else e
 
 /-- the end of an included template or of a block: back to where it was entered, with the frame
@@ -625,15 +685,33 @@ def returnFromInclude (s : St) : Comp St :=
                                   frames := { f with closure := ret.closure } :: fr }
       | [] => .fail .stack
     else if ret.kind = .blockCall then
-      .pure { s with calls := calls, code := ret.code, pc := ret.pc, stack := ret.stack, frames := frames }
+      .pure { s with calls := calls, code := ret.code, pc := ret.pc, stack := ret.stack, frames := frames, curBlock := ret.block }
+    else if ret.kind = .superCall then
+      let stacks := (s.blockStacks.getD []).map (fun p => if some p.1 == s.curBlock then (p.1, p.2.1, p.2.2 - 1) else p)
+      if ret.capture then
+        match s.outs with
+        | o :: outs => .pure { s with calls := calls, code := ret.code, pc := ret.pc, frames := frames, curBlock := ret.block,
+                                      blockStacks := some stacks, outs := outs, stack := .str (String.join o.reverse) :: ret.stack }
+        | [] => .fail .stack
+      else
+        .pure { s with calls := calls, code := ret.code, pc := ret.pc, frames := frames, curBlock := ret.block,
+                       blockStacks := some stacks, stack := ret.stack }
     else .fail .stack
+  | [] => .fail .stack
+
+/-- the template's own instructions are finished and `LoadBlocks` stashed a parent: the discarded
+    output is dropped and the parent's instructions run -/
+def switchToParent (s : St) (code : Nat) : Comp St :=
+  match s.outs with
+  | _ :: outs => .pure { s with code := code, pc := 0, parent := Option.none, outs := outs }
   | [] => .fail .stack
 
 /-- the step to take in state `s` (as a `Comp`: it does not see the mode), `none` = finished -/
 def nextC (ops : Ops) (P : Prog) (s : St) : Option (Comp St) :=
   match (P.codes[s.code]?).bind (fun c => c[s.pc]?) with
   | some i => some ((stepC ops P i s).mapErr (wrapErr s))
-  | Option.none => if s.calls.isEmpty then Option.none else some (returnFromInclude s)
+  | Option.none =>
+    if s.calls.isEmpty then (s.parent.map (switchToParent s)) else some (returnFromInclude s)
 
 /-- one instruction under mode `m` -/
 def step (ops : Ops) (P : Prog) (m : Mode) (i : Instr) (s : St) : Except Err St := (stepC ops P i s).run m
